@@ -611,3 +611,24 @@ def validate_blocks(ctx, mon, events, name, consts=None, conf=None, max_rejects=
             left = left[:bi] + left[bi + 1:]
         ctx.extra["conformant_traces"] = ctx.extra.get("conformant_traces", 0) + (len(left) if nd < 3 else 0)
     return accepted, rejects
+
+
+def blind_schedules(rng, threads, n, length):
+    """model-independent schedules: seeded random sequences of thread names (a named thread that is
+    not at a gate is simply skipped by the controller).  They complement the TLC behaviours, which
+    only contain interleavings the MODEL of the current code considers enabled: a change that moves
+    or adds synchronisation points enables interleavings the model never schedules."""
+    out = []
+    for _ in range(n):
+        w = {t: rng.choice([1, 1, 2, 3]) for t in threads}
+        seq = []
+        burst = None
+        for _ in range(length):
+            if burst and rng.random() < 0.5:
+                t = burst
+            else:
+                t = rng.choices(list(threads), weights=[w[x] for x in threads])[0]
+                burst = t
+            seq.append(t)
+        out.append(seq)
+    return out
